@@ -780,37 +780,31 @@ def execute(trace, ctx=None):
                 if op['op'] in ('setitem_reject', 'update_reject') and not isinstance(val, ValueError):
                     raise Violation('wrong-rejection', '%s raised %s instead of ValueError: %s' % (op['op'], type(val).__name__, val), k)
                 if op['op'] == 'update_reject':
-                    # relaxed, narrowly: the table stays rectangular and every column is its old or its new value
+                    # relaxed, narrowly: update is not atomic, so after the rejection the table must be rectangular, keep every old
+                    # column, and hold in every column either its old value or the (fitting) new value; nothing else.  The model then
+                    # adopts whichever of the two the table holds.
                     t = op['t']
                     d = reals[t]
                     m_old = snapshot[t]
                     lists = {c: dict.__getitem__(d, c) for c in dict.keys(d)}
-                    if len({len(x) for x in lists.values()}) > 1:
+                    if any(not isinstance(x, list) for x in lists.values()) or len({len(x) for x in lists.values()}) > 1:
                         raise Violation('not-rectangular', 'after a rejected update columns have lengths %s' % {c: len(x) for c, x in lists.items()}, k)
-                    newm = m_old.copy()
-                    for c, spec in op['items']:
-                        col = _broadcast(_as_values(spec)[1], newm.n(), bool(newm.cols))
-                        if col is None:
-                            break
-                        if c in lists:
-                            if c not in newm.cols:
-                                newm.cols.append(c)
-                            for r, v in zip(newm.rows, col):
-                                r[c] = v
-                    pool[t][0].cols, pool[t][0].rows = newm.cols, newm.rows
-                    pool[t][0].cols = [c for c in newm.cols if c in lists]
-                    for r in pool[t][0].rows:
-                        for c in list(r):
-                            if c not in lists:
-                                del r[c]
-                    for c in list(lists):
-                        if c not in pool[t][0].cols:
-                            raise Violation('columns-differ', 'after a rejected update the table has an unexpected column %r' % c, k)
-                    # a column may legitimately still hold its old value
-                    for c in pool[t][0].cols:
-                        if c in m_old.cols and all(same(a, b) for a, b in zip(lists[c], m_old.column(c))) and len(lists[c]) == m_old.n():
-                            for r, v in zip(pool[t][0].rows, m_old.column(c)):
-                                r[c] = v
+                    n_now = len(next(iter(lists.values()))) if lists else 0
+                    news = {c: _as_values(spec)[1] for c, spec in op['items']}
+                    for c in m_old.cols:
+                        if c not in lists:
+                            raise Violation('columns-differ', 'a rejected update removed column %r' % c, k)
+                    if m_old.cols and n_now != m_old.n():
+                        raise Violation('length-differs', 'a rejected update changed the number of rows from %d to %d' % (m_old.n(), n_now), k)
+                    for c, x in lists.items():
+                        ok_old = c in m_old.cols and len(x) == m_old.n() and all(same(a, b) for a, b in zip(x, m_old.column(c)))
+                        nv = news.get(c)
+                        ok_new = nv is not None and (all(same(a, b) for a, b in zip(x, nv)) and len(x) == len(nv)
+                                                     or (len(nv) == 1 and all(same(a, nv[0]) for a in x)))
+                        if not (ok_old or ok_new):
+                            raise Violation('rows-differ', 'after a rejected update column %r holds %r: neither its old value nor the new one' % (c, x), k)
+                    pool[t][0].cols = list(lists.keys())
+                    pool[t][0].rows = [{c: lists[c][i] for c in lists} for i in range(n_now)]
                 elif op['op'] == 'setitem_reject':
                     ids_after = [[id(dict.__getitem__(d, c)) for c in dict.keys(d)] for d in reals]
                     if ids_after != ids_before:
